@@ -342,6 +342,9 @@ Proof.
   now injection P as ->.
 Qed.
 
+Lemma concat_singletons {A} (l : list A) : concat (map (fun u => [u]) l) = l.
+Proof. induction l as [|u l IH]; [reflexivity|]. cbn [map concat app]. now rewrite IH. Qed.
+
 Theorem crldp_roundtrip dps : via read_crldp (build_crldp dps) = Some dps.
 Proof.
   rewrite via_wf.
@@ -351,5 +354,366 @@ Proof.
               = Some (map (fun u => [u]) dps)).
   { induction dps as [|u l IH]; [reflexivity|]. cbn [map omap]. rewrite IH.
     cbn [read_dp raw_bytes]. rewrite (parse_seq_emit_list [Prim 2 6 u] eq_refl). reflexivity. }
-  rewrite H. f_equal. induction dps as [|u l IH]; [reflexivity|]. cbn. now rewrite IH.
+  rewrite H. f_equal. apply concat_singletons.
+Qed.
+
+(* ------------------------------------------------------------------ *)
+(* distinguished names                                                  *)
+Definition wf_atv (a : atv) : bool := wf_oid (fst a).
+Definition wf_name (n : name) : bool := forallb (forallb wf_atv) n.
+
+Lemma printable_implies_read s :
+  forallb is_printable_char s = true -> forallb printable_read s = true.
+Proof.
+  intros H. rewrite forallb_forall in *. intros x Hx. unfold printable_read. now rewrite (H x Hx).
+Qed.
+
+Lemma read_build_atv a d : wf_atv a = true -> build_atv a = Some d -> read_atv d = Some a /\ wfb d = true.
+Proof.
+  unfold wf_atv, build_atv. intros Hw. destruct (d_oid (fst a)) as [o|] eqn:Eo; [|discriminate].
+  intros E; injection E as <-.
+  destruct (read_oid_elem_d_oid _ _ Hw Eo) as [R W]. apply d_oid_inv in Eo as (b & _ & ->).
+  cbn [read_oid_elem] in R. unfold seq. cbn [read_atv]. rewrite R.
+  unfold string_tag. destruct (forallb is_printable_char (snd a)) eqn:Hp.
+  - change (19 =? 19) with true. cbv iota. rewrite (printable_implies_read _ Hp).
+    destruct a; split; reflexivity.
+  - change (12 =? 19) with false. change (12 =? 12) with true. cbv iota. destruct a; split; reflexivity.
+Qed.
+
+Lemma insert_by_perm x l : Permutation (x :: l) (insert_by x l).
+Proof.
+  induction l as [|y r IH]; [apply Permutation_refl|].
+  cbn [insert_by]. destruct (bytes_ltb (emit y) (emit x)); [|apply Permutation_refl].
+  eapply Permutation_trans; [apply perm_swap|]. now apply perm_skip.
+Qed.
+
+Lemma sort_set_perm l : Permutation l (sort_set l).
+Proof.
+  induction l as [|x r IH]; [constructor|]. cbn [sort_set fold_right]. fold (sort_set r).
+  eapply Permutation_trans; [apply perm_skip, IH|apply insert_by_perm].
+Qed.
+
+Lemma forallb_perm {A} (p : A -> bool) l l' : Permutation l l' -> forallb p l = true -> forallb p l' = true.
+Proof.
+  intros HP H. rewrite forallb_forall in *. intros x Hx. apply H.
+  eapply Permutation_in; [apply Permutation_sym, HP|exact Hx].
+Qed.
+
+Lemma read_build_rdn r d : forallb wf_atv r = true -> build_rdn r = Some d ->
+  exists r', read_rdn d = Some r' /\ Permutation r r' /\ wfb d = true.
+Proof.
+  unfold build_rdn. intros Hw. destruct (omap build_atv r) as [l|] eqn:El; [|discriminate].
+  intros E; injection E as <-. apply omap_inv in El.
+  assert (Hl : Forall2 (fun dd a => read_atv dd = Some a /\ wfb dd = true) l r).
+  { revert Hw. induction El as [|a dd r' l' Ha _ IH]; intros Hw; [constructor|].
+    cbn [forallb] in Hw. apply andb_prop in Hw as [H1 H2]. constructor; [now apply read_build_atv|now apply IH]. }
+  assert (Hr : Forall2 (fun dd a => read_atv dd = Some a) l r).
+  { clear -Hl. induction Hl as [|? ? ? ? [H _] _ IH]; constructor; auto. }
+  assert (Hwl : forallb wfb l = true).
+  { clear -Hl. induction Hl as [|? ? ? ? [_ H] _ IH]; [reflexivity|]. cbn. now rewrite H, IH. }
+  destruct (Permutation_Forall2 (sort_set_perm l) Hr) as (r' & Hp & Hf).
+  exists r'. split; [|split].
+  - cbn [read_rdn]. now apply omap_forall2.
+  - exact Hp.
+  - cbn [wfb]. cbn. now apply (forallb_perm wfb l (sort_set l) (sort_set_perm l)).
+Qed.
+
+Definition name_rel (n n' : name) : Prop := Forall2 (@Permutation atv) n n'.
+
+Theorem name_roundtrip n d : wf_name n = true -> build_name n = Some d ->
+  exists n', read_name d = Some n' /\ name_rel n n' /\ wfb d = true.
+Proof.
+  unfold build_name, wf_name. intros Hw. destruct (omap build_rdn n) as [l|] eqn:El; [|discriminate].
+  intros E; injection E as <-. apply omap_inv in El.
+  assert (H : exists n', Forall2 (fun dd r' => read_rdn dd = Some r') l n' /\ name_rel n n' /\ forallb wfb l = true).
+  { revert Hw. induction El as [|r dd n0 l0 Hr _ IH]; intros Hw.
+    - exists []. repeat split; constructor.
+    - cbn [forallb] in Hw. apply andb_prop in Hw as [H1 H2].
+      destruct (read_build_rdn _ _ H1 Hr) as (r' & Rr & Pr & Wr).
+      destruct (IH H2) as (n' & Fn & Rn & Wn).
+      exists (r' :: n'). split; [now constructor|]. split; [now constructor|]. cbn. now rewrite Wr, Wn. }
+  destruct H as (n' & Fn & Rn & Wn). exists n'. split; [|split].
+  - unfold seq. cbn [read_name]. now apply omap_forall2.
+  - exact Rn.
+  - unfold seq. cbn [wfb]. cbn. exact Wn.
+Qed.
+
+(* a name with single-valued RDNs only comes back unchanged *)
+Lemma name_rel_singletons n n' : name_rel n n' -> Forall (fun r => (length r <= 1)%nat) n -> n' = n.
+Proof.
+  intros H. induction H as [|r r' n0 n0' Hp _ IH]; intros Hs; [reflexivity|].
+  apply Forall_cons_iff in Hs as [H1 H2]. rewrite (IH H2). f_equal.
+  destruct r as [|a [|b r0]]; cbn in H1; try lia.
+  - apply Permutation_nil in Hp. now subst.
+  - apply Permutation_length_1_inv in Hp. now subst.
+Qed.
+
+(* ------------------------------------------------------------------ *)
+(* name constraints                                                     *)
+Definition split_ipmask (b : bytes) : ipnet :=
+  if (length b =? 8)%nat then (firstn 4 b, skipn 4 b) else (firstn 16 b, skipn 16 b).
+Definition norm_ipnet (n : ipnet) : ipnet := split_ipmask (ip_and_mask n).
+Definition ipnet_ok (n : ipnet) : bool :=
+  let b := ip_and_mask n in (length b =? 8)%nat || (length b =? 32)%nat.
+
+Definition wf_ncset (s : ncset) : bool := forallb wf_name (nc_dir s) && forallb ipnet_ok (nc_ip s).
+
+Definition ncset_rel (s s' : ncset) : Prop :=
+  nc_email s' = nc_email s /\ nc_dns s' = nc_dns s /\
+  Forall2 name_rel (nc_dir s) (nc_dir s') /\ nc_ip s' = map norm_ipnet (nc_ip s).
+
+(* defect 20 (fixed): an IPv4 range given with a 16-byte address and a 4-byte mask *)
+Lemma norm_ipnet_v4_in_16 a b c d (mask : bytes) : length mask = 4%nat ->
+  norm_ipnet (v4_in_v6_prefix ++ [a; b; c; d], mask) = ([a; b; c; d], mask) /\
+  norm_ipnet ([a; b; c; d], mask) = ([a; b; c; d], mask).
+Proof.
+  intros Hm. destruct mask as [|m0 [|m1 [|m2 [|m3 [|? ?]]]]]; try discriminate. split; reflexivity.
+Qed.
+
+Lemma norm_ipnet_same_len ip mask : length ip = length mask -> (length ip = 4%nat \/ length ip = 16%nat) ->
+  norm_ipnet (ip, mask) = (ip, mask) /\ ipnet_ok (ip, mask) = true.
+Proof.
+  intros Hl [H4|H16].
+  - rewrite H4 in Hl.
+    do 5 (destruct ip as [|? ip]; try discriminate). do 5 (destruct mask as [|? mask]; try discriminate).
+    split; reflexivity.
+  - rewrite H16 in Hl.
+    do 17 (destruct ip as [|? ip]; try discriminate). do 17 (destruct mask as [|? mask]; try discriminate).
+    split; reflexivity.
+Qed.
+
+Lemma ncset_eta s : s = {| nc_email := nc_email s; nc_dns := nc_dns s; nc_dir := nc_dir s; nc_ip := nc_ip s |}.
+Proof. now destruct s. Qed.
+
+Lemma read_subtrees_app l1 l2 :
+  read_subtrees (l1 ++ l2) =
+  match read_subtrees l2 with
+  | None => None
+  | Some s2 => match read_subtrees l1 with
+               | None => None
+               | Some s1 => Some (ncset_app s1 s2)
+               end
+  end.
+Proof.
+  induction l1 as [|st l1 IH]; cbn [app read_subtrees].
+  - destruct (read_subtrees l2) as [s2|]; [|reflexivity]. unfold ncset_app. cbn. now rewrite <- ncset_eta.
+  - rewrite IH. destruct (read_subtrees l2) as [s2|]; [|reflexivity].
+    destruct (read_subtrees l1) as [s1|]; [|reflexivity].
+    destruct st as [c t b|c t kids]; [reflexivity|].
+    destruct c as [|p]; [|reflexivity]. destruct t as [|p]; [reflexivity|].
+    destruct (Pos.eq_dec p 16) as [->|Hp].
+    2:{ repeat (destruct p as [p|p|]; try reflexivity; try congruence). }
+    destruct kids as [|base ?]; [reflexivity|].
+    destruct (raw_tag base =? 1); [reflexivity|]. destruct (raw_tag base =? 2); [reflexivity|].
+    destruct (raw_tag base =? 4).
+    { destruct (parse (raw_bytes base)) as [[nd ?]|]; [|reflexivity]. destruct (read_name nd); reflexivity. }
+    destruct (raw_tag base =? 7); [|reflexivity].
+    destruct (length (raw_bytes base) =? 8)%nat; [reflexivity|].
+    destruct (length (raw_bytes base) =? 32)%nat; reflexivity.
+Qed.
+
+Lemma read_subtrees_emails l :
+  read_subtrees (map (fun e => subtree (Prim 2 1 e)) l) = Some {| nc_email := l; nc_dns := []; nc_dir := []; nc_ip := [] |}.
+Proof. induction l as [|e l IH]; [reflexivity|]. cbn [map read_subtrees]. now rewrite IH. Qed.
+
+Lemma read_subtrees_dns l :
+  read_subtrees (map (fun e => subtree (Prim 2 2 e)) l) = Some {| nc_email := []; nc_dns := l; nc_dir := []; nc_ip := [] |}.
+Proof. induction l as [|e l IH]; [reflexivity|]. cbn [map read_subtrees]. now rewrite IH. Qed.
+
+Lemma read_subtrees_ips l : forallb ipnet_ok l = true ->
+  read_subtrees (map (fun n => subtree (Prim 2 7 (ip_and_mask n))) l)
+  = Some {| nc_email := []; nc_dns := []; nc_dir := []; nc_ip := map norm_ipnet l |}.
+Proof.
+  induction l as [|n l IH]; intros H; [reflexivity|].
+  cbn [forallb] in H. apply andb_prop in H as [H1 H2].
+  cbn [map read_subtrees]. rewrite (IH H2). unfold subtree, seq. cbn [raw_tag raw_bytes]. cbn [N.eqb Pos.eqb].
+  unfold ipnet_ok in H1. unfold norm_ipnet, split_ipmask.
+  destruct (length (ip_and_mask n) =? 8)%nat; [reflexivity|]. cbn [orb] in H1. now rewrite H1.
+Qed.
+
+Lemma read_subtrees_dirs ns ds : forallb wf_name ns = true ->
+  Forall2 (fun n d => build_name n = Some d) ns ds ->
+  exists ns', read_subtrees (map (fun n => subtree (Cons 2 4 [n])) ds)
+              = Some {| nc_email := []; nc_dns := []; nc_dir := ns'; nc_ip := [] |}
+              /\ Forall2 name_rel ns ns' /\ forallb wfb ds = true.
+Proof.
+  intros Hw H. revert Hw. induction H as [|n d ns ds Hb _ IH]; intros Hw.
+  - exists []. repeat split; constructor.
+  - cbn [forallb] in Hw. apply andb_prop in Hw as [H1 H2].
+    destruct (IH H2) as (ns' & R & F & W).
+    destruct (name_roundtrip _ _ H1 Hb) as (n' & Rn & Pn & Wn).
+    exists (n' :: ns'). split; [|split; [now constructor|cbn; now rewrite Wn, W]].
+    cbn [map read_subtrees]. rewrite R. unfold subtree, seq. cbn [raw_tag raw_bytes]. cbn [N.eqb Pos.eqb].
+    unfold emit_list. cbn [flat_map]. rewrite parse_emit by exact Wn. now rewrite Rn.
+Qed.
+
+Lemma Forall2_len {A B} (R : A -> B -> Prop) l l' : Forall2 R l l' -> length l = length l'.
+Proof. induction 1; cbn; congruence. Qed.
+
+Lemma build_ncset_spec s l : wf_ncset s = true -> build_ncset s = Some l ->
+  exists s', read_subtrees l = Some s' /\ ncset_rel s s' /\ forallb wfb l = true /\ (l = [] <-> nc_empty s = true).
+Proof.
+  unfold wf_ncset, build_ncset. intros Hw. apply andb_prop in Hw as [Hwd Hwi].
+  destruct (omap build_name (nc_dir s)) as [dirs|] eqn:Ed; [|discriminate].
+  intros E; injection E as <-. apply omap_inv in Ed.
+  destruct (read_subtrees_dirs _ _ Hwd Ed) as (ns' & Rd & Fd & Wd).
+  exists {| nc_email := nc_email s; nc_dns := nc_dns s; nc_dir := ns'; nc_ip := map norm_ipnet (nc_ip s) |}.
+  split; [|split; [|split]].
+  - rewrite !read_subtrees_app, (read_subtrees_ips _ Hwi), Rd, read_subtrees_dns, read_subtrees_emails.
+    unfold ncset_app. cbn. now rewrite !app_nil_r.
+  - repeat split; try reflexivity. exact Fd.
+  - rewrite !forallb_app, !forallb_map.
+    assert (Hd : forallb (fun n => wfb (subtree (Cons 2 4 [n]))) dirs = true).
+    { clear -Wd. induction dirs as [|x r IH]; [reflexivity|]. cbn [forallb] in *.
+      apply andb_prop in Wd as [W1 W2]. rewrite (IH W2). unfold subtree, seq. cbn [wfb forallb]. rewrite W1. reflexivity. }
+    rewrite Hd. rewrite !forallb_true; auto.
+  - unfold nc_empty. assert (Hlen : length dirs = length (nc_dir s)) by (symmetry; eapply Forall2_len; eauto).
+    destruct (nc_email s), (nc_dns s), (nc_dir s), (nc_ip s), dirs; cbn in *; split; intros; try discriminate; try reflexivity.
+Qed.
+
+Theorem nc_roundtrip perm excl d :
+  wf_ncset perm = true -> wf_ncset excl = true -> build_nc perm excl = Some d ->
+  exists p' e', via read_nc d = Some (p', e') /\ ncset_rel perm p' /\ ncset_rel excl e'.
+Proof.
+  intros Hp He. unfold build_nc.
+  destruct (build_ncset perm) as [p|] eqn:Ep; [|discriminate].
+  destruct (build_ncset excl) as [e|] eqn:Ee; [|discriminate].
+  intros E; injection E as <-.
+  destruct (build_ncset_spec _ _ Hp Ep) as (p' & Rp & Pp & Wp & Np).
+  destruct (build_ncset_spec _ _ He Ee) as (e' & Re & Pe & We & Ne).
+  exists p', e'. split; [|split; assumption].
+  rewrite via_wf.
+  2:{ unfold seq. cbn [wfb]. cbn. rewrite forallb_app.
+      destruct p, e; cbn [forallb wfb]; cbn; rewrite ?Wp, ?We; try reflexivity;
+        cbn in Wp, We; rewrite ?Wp, ?We; reflexivity. }
+  unfold seq. cbn [read_nc].
+  destruct p as [|p0 pr]; destruct e as [|e0 er]; cbn [app fst snd].
+  - cbn in Rp, Re. injection Rp as <-. injection Re as <-. reflexivity.
+  - cbn in Rp. injection Rp as <-. now rewrite Re.
+  - rewrite Rp. cbn in Re. injection Re as <-. reflexivity.
+  - now rewrite Rp, Re.
+Qed.
+
+(* ------------------------------------------------------------------ *)
+(* signature algorithm identifiers (finite: the regenerated table)       *)
+Definition kinds : list keykind := [KRSA; KEC 224; KEC 256; KEC 384; KEC 521; KEd].
+
+Definition row_ok (k : keykind) (r : row) : bool :=
+  match default_alg k with
+  | None => true
+  | Some (o, p) =>
+      if negb (r_pk r =? pubtype k) then true
+      else if (r_hash r =? 0) && (match k with KEd => false | _ => true end) then true
+      else if r_pss r then
+        match parse_all (r_params r) with
+        | Some t => sigalg_of (r_oid r, Some t) =? r_algo r
+        | None => true
+        end
+      else sigalg_of (r_oid r, p) =? r_algo r
+  end.
+
+Lemma rows_ok : forallb (fun k => forallb (row_ok k) sigalg_table) kinds = true.
+Proof. vm_compute. reflexivity. Qed.
+
+Lemma kec_kind b a : default_alg (KEC b) = Some a -> In (KEC b) kinds.
+Proof.
+  unfold default_alg.
+  destruct (N.eqb_spec b 224) as [->|]; [intros _; cbn; tauto|].
+  destruct (N.eqb_spec b 256) as [->|]; [intros _; cbn; tauto|]. cbn [orb].
+  destruct (N.eqb_spec b 384) as [->|]; [intros _; cbn; tauto|].
+  destruct (N.eqb_spec b 521) as [->|]; [intros _; cbn; tauto|]. discriminate.
+Qed.
+
+Theorem sigalg_requested_roundtrip k req alg :
+  req <> 0 -> signing_alg k req = Some alg -> sigalg_of alg = req.
+Proof.
+  intros Hreq. unfold signing_alg.
+  destruct (default_alg k) as [[o p]|] eqn:Ed; [|discriminate].
+  destruct (N.eqb_spec req 0) as [|_]; [contradiction|].
+  destruct (find (fun r : row => r_algo r =? req) sigalg_table) as [r|] eqn:F; [|discriminate].
+  apply find_some in F as [Hin Ha]. apply N.eqb_eq in Ha.
+  assert (Hk : In k kinds).
+  { destruct k as [| b |]; [cbn; tauto|eapply kec_kind; eauto|cbn; tauto]. }
+  pose proof rows_ok as A. rewrite forallb_forall in A. specialize (A k Hk).
+  rewrite forallb_forall in A. specialize (A r Hin). unfold row_ok in A. rewrite Ed in A.
+  destruct (negb (r_pk r =? pubtype k)); [discriminate|].
+  destruct ((r_hash r =? 0) && _); [discriminate|].
+  destruct (r_pss r).
+  - destruct (parse_all (r_params r)) as [t|]; [|discriminate].
+    intros E; injection E as <-. apply N.eqb_eq in A. congruence.
+  - intros E; injection E as <-. apply N.eqb_eq in A. congruence.
+Qed.
+
+(* with no algorithm requested: SHA256-RSA, ECDSA with the curve's hash, Ed25519
+   (numbers are x509.SignatureAlgorithm constants, checked against the table) *)
+Definition default_sigalg (k : keykind) : N :=
+  match k with
+  | KRSA => 4
+  | KEC b => if (b =? 224) || (b =? 256) then 10 else if b =? 384 then 11 else 12
+  | KEd => 16
+  end.
+
+Lemma default_all : forallb (fun k => match signing_alg k 0 with
+                                      | Some a => sigalg_of a =? default_sigalg k
+                                      | None => false end) kinds = true.
+Proof. vm_compute. reflexivity. Qed.
+
+Theorem sigalg_default_roundtrip k alg : signing_alg k 0 = Some alg -> sigalg_of alg = default_sigalg k.
+Proof.
+  intros H. assert (Hk : In k kinds).
+  { unfold signing_alg in H. destruct (default_alg k) as [a|] eqn:Ed; [|discriminate].
+    destruct k as [| b |]; [cbn; tauto|eapply kec_kind; eauto|cbn; tauto]. }
+  pose proof default_all as A. rewrite forallb_forall in A. specialize (A k Hk). rewrite H in A.
+  now apply N.eqb_eq in A.
+Qed.
+
+(* ------------------------------------------------------------------ *)
+(* extra extensions override the generated ones                          *)
+Lemma gen_ext_spec t cond id crit v l : gen_ext t cond id crit v = Some l ->
+  l = [] \/ (exists d, v = Some d /\ l = [(id, crit, emit d)] /\ cond = true /\ oid_in_exts id (t_extra t) = false).
+Proof.
+  unfold gen_ext. destruct cond; cbn [andb].
+  - destruct (oid_in_exts id (t_extra t)) eqn:Ei; cbn [negb].
+    + intros E; injection E as <-. now left.
+    + destruct v as [d|]; [|discriminate]. intros E; injection E as <-. right. exists d. auto.
+  - intros E; injection E as <-. now left.
+Qed.
+
+Definition known_oids : list oid :=
+  [oid_ku; oid_eku; oid_bc; oid_ski; oid_aki; oid_aia; oid_san; oid_policies; oid_nc; oid_crldp].
+
+Lemma oconcat_cons {A} (x : option (list A)) r l :
+  oconcat (x :: r) = Some l -> exists a b, x = Some a /\ oconcat r = Some b /\ l = a ++ b.
+Proof.
+  cbn [oconcat]. destruct x as [a|]; [|discriminate]. destruct (oconcat r) as [b|]; [|discriminate].
+  intros E; injection E as <-. eauto.
+Qed.
+
+Lemma in_gen (a : list ext) (v : option dv) id crit (c : bool) extras e :
+  (a = [] \/ (exists d, v = Some d /\ a = [(id, crit, emit d)] /\ c = true /\ oid_in_exts id extras = false)) ->
+  In e a -> oid_in_exts (ext_id e) extras = false /\ ext_id e = id.
+Proof.
+  intros [->|(d & _ & -> & _ & Hn)] He; [contradiction|].
+  destruct He as [<-|[]]. split; [exact Hn|reflexivity].
+Qed.
+
+Ltac step_oc Eg :=
+  let a := fresh "a" in let b := fresh "b" in let G := fresh "G" in
+  apply oconcat_cons in Eg as (a & b & G & Eg & ->); apply gen_ext_spec in G.
+
+Theorem extra_overrides t l : build_extensions t = Some l ->
+  exists g, l = g ++ t_extra t /\
+            (forall e, In e g -> oid_in_exts (ext_id e) (t_extra t) = false /\ In (ext_id e) known_oids).
+Proof.
+  unfold build_extensions. destruct (oconcat _) as [g|] eqn:Eg; [|discriminate].
+  intros E; injection E as <-. exists g. split; [reflexivity|].
+  do 10 step_oc Eg.
+  cbn [oconcat] in Eg. injection Eg as <-.
+  intros e He.
+  Local Ltac use_gen G He :=
+    apply in_app_or in He as [He|He];
+    [ destruct (in_gen _ _ _ _ _ _ _ G He) as [H1 H2]; split; [exact H1|rewrite H2; cbn; tauto] | ].
+  use_gen G He. use_gen G0 He. use_gen G1 He. use_gen G2 He. use_gen G3 He.
+  use_gen G4 He. use_gen G5 He. use_gen G6 He. use_gen G7 He. use_gen G8 He.
+  contradiction.
 Qed.
